@@ -28,7 +28,7 @@ def _get(path, ch, f, stream_exp, nm):
     if path == "iterate":
         return [proj._scalar(v) for v in ch], probs
     if path == "int_index":
-        return [proj._scalar(ch[i]) for i in range(len(ch))], probs
+        return [proj.indexed_scalar(ch[i]) for i in range(len(ch))], probs
     if path == "read_data_unscaled":
         r = ch.read_data(scaled=False)
         if isinstance(r, dict):          # DAQmx: dictionary of scaler id -> raw scaler data
